@@ -504,6 +504,10 @@ def _finalize(draw, b: _Builder, date: datetime.date, mode: str, fill_seed: int,
             money["eink_vermietung_m"] = -money["eink_vermietung_m"]
             b.tags.add("negative_rent")
 
+        if mode != "mid" and working_age and money["kapitaleink_brutto_m"] > 0 and draw(st.integers(0, 7)) == 0:
+            # a realised capital loss (negative incomes are ordinary input: rental losses, capital losses)
+            money["kapitaleink_brutto_m"] = -money["kapitaleink_brutto_m"]
+            b.tags.add("capital_loss")
         selbst = money["eink_selbst_m"] > 0 and (default or rng.random() < 0.7)
         erwerbs = money["bruttolohn_m"] > 0 or money["eink_selbst_m"] > 0
 
